@@ -1,3 +1,440 @@
-/-! Property C02 — theorems (statements live here, helper lemmas in Faithful/Lib) -/
+import Faithful.Lib.Rpc
+import Faithful.Properties.C18
+
+/-! Property C02 — RPC answers for archived slots and signatures reproduce the archive exactly.
+
+Theorems about the definitions of `Faithful/Lib/Rpc.lean` that the driver `Driver/C02.lean` executes
+(`Rpc.getBlockS`, `Rpc.getTransactionS`, `Rpc.getBlockTime`, `Rpc.searchRun`).  Quantified over: every set of loaded
+epochs with distinct numbers, every archived block / transaction, every completion order of the fetch goroutines
+(`Sched`), every implementation of `sort.Slice` (`SortFn`), every `EpochSearchConcurrency` (`limit : Int`) and every
+schedule of the parallel epoch search (`FSys.Reach`, property C18 — imported, not re-modelled), every content of the
+raw-object cache and every sound content of the offset cache.
+
+Hypotheses that are somebody else's theorem are explicit: the index files implement exact maps over the archive
+(`findBlock`, `findTx`, `blocktimeIdx`: C01/C03/C05), every archived object resolves through index + CAR (`StoreOk`:
+C01), payload reassembly and zstd give back the archived bytes (`Tx.payload`, `Tx.mdata`: C14 / third party).
+
+`partial`: the byte-identity of the `json` rendering of a transaction and of the JSON rendering of the metadata rest on
+solana-go / protobuf / jsoniter (`Tx.tag` is opaque here) — `json_encoding_partial`.
+Helper lemmas live in `Faithful/Lib/Rpc.lean`. -/
+
 namespace C02
+open Rpc FS FSys FindEpoch
+
+/-! ### ties to the code -/
+
+/-- tie: the translated Go `slottools.CalcEpochForSlot` is the model's `epochOf` -/
+theorem gen_calcEpochForSlot_eq_model (s : UInt64) :
+    (Generated.calcEpochForSlot s).toNat = epochOf s.toNat := by
+  unfold Generated.calcEpochForSlot epochOf
+  rw [UInt64.toNat_div]
+  rfl
+
+/-- tie: the epoch length is the constant extracted from `slottools` -/
+theorem gen_epochLen_eq_model : Generated.epochLen = Rpc.epochLen := rfl
+
+/-! ### getBlock -/
+
+/-- **getBlock returns the archived block.**  For every loaded epoch set with distinct numbers, every block `b` of a
+complete loaded epoch `ep`, every completion order `σ` of the fetch goroutines and every `sort.Slice` `S`: the call
+succeeds and returns the block's slot, parent slot, block time, block height, blockhash = hash of its last entry,
+previousBlockhash = hash of the parent's last entry whenever the parent slot is in the same epoch (`wantsParent`:
+`slot ≠ 0 ∧ epoch(parent) = epoch(slot)` — see `wantsParent_iff`), and ALL transactions of the block — a permutation of the
+archived list sorted by recorded position, hence exactly the archived list when positions are distinct and recorded in
+entry order.  Slot 0: block time = genesis creation time, parent 0, previousBlockhash = own blockhash. -/
+theorem getBlock_fields (S : SortFn) (σ : Sched) (es : List Epoch) (ep : Epoch) (b : Block)
+    (hu : UniqueNums es) (hep : ep ∈ es) (hok : EpochOk ep) (hb : b ∈ ep.blocks) :
+    ∃ r, getBlock S σ es b.slot = .ok r ∧
+      r.slot = b.slot ∧
+      r.parentSlot = (if b.slot = 0 then 0 else b.parent) ∧
+      r.blockTime = (if b.slot = 0 then ep.genesisTime.getD b.time else b.time) ∧
+      (∀ h, b.height = some h → r.blockHeight = some h) ∧
+      r.blockhash = lastHash b ∧
+      (wantsParent ep b = true → ∀ pb ∈ ep.blocks, pb.slot = b.parent → ∀ e, pb.entries.getLast? = some e →
+        r.previousBlockhash = some (hash32 e.hash)) ∧
+      (wantsParent ep b = false → r.previousBlockhash = if b.slot = 0 then some (lastHash b) else none) ∧
+      r.txs.Perm (blockTxs b) ∧
+      r.txs.Pairwise (fun x y => posKey x ≤ posKey y) ∧
+      (((blockTxs b).map posKey).Nodup → (blockTxs b).Pairwise (fun x y => posKey x ≤ posKey y) → r.txs = blockTxs b) := by
+  obtain ⟨prev, hprev, hno, hyes⟩ := prevHash_ok ep b hok hb
+  refine ⟨blockRespOf ep b (S.sort (blockTxs b)) prev, ?_, rfl, rfl, rfl, ?_, rfl, hyes, hno, S.perm _, S.sorted _, ?_⟩
+  · unfold getBlock
+    simp only [route es ep hu hep b.slot (hok.inEpoch b hb), findBlock_of_mem ep b hok.slots hb, blockAnswer, assemble_eq, hprev]
+  · intro h hh; simp [blockRespOf, hh]
+  · intro hd hs
+    exact sorted_perm_unique _ _ (S.perm _) hd (S.sorted _) hs
+
+/-- the same-epoch condition, spelled out -/
+theorem wantsParent_iff (ep : Epoch) (b : Block) :
+    wantsParent ep b = true ↔ b.slot ≠ 0 ∧ epochOf b.parent = ep.num := by
+  simp [wantsParent]
+
+/-- the pinned tree's condition differs from it exactly on blocks with slot ≥ 2 whose parent is slot 0 in epoch 0
+(there the pinned handler answers previousBlockhash = null although the parent is in the same epoch) -/
+theorem wantsParent_pinned_differs (ep : Epoch) (b : Block) (hz : b.slot = 0 → b.parent = 0) :
+    wantsParentPinned ep b ≠ wantsParent ep b ↔ (b.parent = 0 ∧ 2 ≤ b.slot ∧ ep.num = 0) := by
+  unfold wantsParentPinned wantsParent epochOf epochLen
+  by_cases h0 : b.parent = 0 <;> by_cases h1 : b.slot = 1 <;> by_cases hs : b.slot = 0 <;>
+    by_cases he : b.parent / 432000 = ep.num <;> simp_all <;> omega
+
+/-- **the answer does not depend on the completion order of the fetch goroutines** — for every request, archived or
+not, loaded or not -/
+theorem getBlock_schedule_independent (S : SortFn) (σ σ' : Sched) (es : List Epoch) (slot : Nat) :
+    getBlock S σ es slot = getBlock S σ' es slot := by
+  unfold getBlock blockAnswer
+  simp only [assemble_eq]
+
+/-- the slots after all completions do not depend on their order either (the statement one level below) -/
+theorem fill_schedule_independent (b : Block) (cs cs' : List Comp) (h : cs.Perm (completions b)) (h' : cs'.Perm (completions b)) :
+    fill emptySlots cs = fill emptySlots cs' := by
+  funext i j
+  rw [fill_completions b cs h, fill_completions b cs' h']
+
+/-- two implementations of `sort.Slice` cannot disagree on a block whose recorded positions are distinct -/
+theorem getBlock_sort_independent (S S' : SortFn) (σ : Sched) (es : List Epoch) (slot : Nat)
+    (hd : ∀ ep ∈ es, ∀ b ∈ ep.blocks, ((blockTxs b).map posKey).Nodup) :
+    getBlock S σ es slot = getBlock S' σ es slot := by
+  unfold getBlock
+  cases hl : lookupEpoch es (epochOf slot) with
+  | none => rfl
+  | some ep =>
+    dsimp only
+    cases hf : findBlock ep slot with
+    | none => rfl
+    | some b =>
+      dsimp only
+      have hbm : b ∈ ep.blocks := List.mem_of_find?_eq_some hf
+      have hepm := (lookupEpoch_some es _ ep hl).1
+      have : S.sort (blockTxs b) = S'.sort (blockTxs b) :=
+        sorted_perm_unique _ _ ((S.perm _).trans (S'.perm _).symm)
+          ((S'.perm (blockTxs b)).map posKey |>.nodup_iff.mpr (hd ep hepm b hbm)) (S.sorted _) (S'.sorted _)
+      simp only [blockAnswer, assemble_eq, this]
+
+/-- the gRPC comparator orders recorded positions exactly as the JSON-RPC comparator does -/
+theorem lessGrpc_eq_lessJson (a b : Tx) (ha : a.pos.isSome) (hb : b.pos.isSome) :
+    lessGrpc a b = decide (posKey a < posKey b) := by
+  unfold lessGrpc posKey
+  cases hpa : a.pos <;> cases hpb : b.pos <;> simp_all
+
+/-! ### getBlockTime -/
+
+/-- **getBlockTime returns the archived block time** -/
+theorem getBlockTime_fields (es : List Epoch) (ep : Epoch) (b : Block)
+    (hu : UniqueNums es) (hep : ep ∈ es) (hok : EpochOk ep) (hb : b ∈ ep.blocks) :
+    getBlockTime es b.slot = .ok b.time := by
+  unfold getBlockTime
+  rw [route es ep hu hep b.slot (hok.inEpoch b hb)]
+  simp [blocktimeIdx, hok.inEpoch b hb, findBlock_of_mem ep b hok.slots hb]
+
+/-! ### getTransaction -/
+
+/-- the epoch search finds the one epoch that archives the signature: for every concurrency limit and every schedule
+of the search (C18), and directly when a single epoch is loaded -/
+theorem search_finds (es : List Epoch) (ep : Epoch) (sig : Nat) (hu : UniqueNums es) (hep : ep ∈ es)
+    (hhit : (findTx ep sig).isSome = true)
+    (huniq : ∀ ep' ∈ es, (findTx ep' sig).isSome = true → ep' = ep)
+    (limit : Int) (s : State Nat JErr) (r : Res Nat JErr)
+    (hr : Reach (cfgOf limit (searchEps es sig)) s) (hd : s.main = .done r) :
+    findResult (searchEps es sig) r = .found ep.num := by
+  have hmem : (ep.num, Kind.hit) ∈ searchEps es sig := by
+    have := mem_searchEps_of_mem es ep sig hu hep
+    rwa [(kindOf_hit ep sig).mpr hhit] at this
+  by_cases h1 : (searchEps es sig).length = 1
+  · match hs : searchEps es sig, h1 with
+    | [(n, k)], _ =>
+      rw [hs] at hmem
+      simp only [List.mem_singleton, Prod.mk.injEq] at hmem
+      rw [C18.find_single_epoch, hmem.1]
+  · rw [C18.find_multi_epoch _ r h1]
+    obtain ⟨e, hc, he⟩ := (C18.find_epoch_classification limit _ s r hr hd).2.1 ⟨ep.num, hmem⟩
+    obtain ⟨ep', hep', hn, hk⟩ := mem_searchEps es sig e .hit he
+    have := huniq ep' hep' ((kindOf_hit ep' sig).mp hk.symm)
+    subst this
+    rw [hc, hn]
+
+/-- **getTransaction returns the archived transaction.**  For every loaded epoch set with distinct numbers in which
+the signature is archived in exactly one epoch `ep`, every `EpochSearchConcurrency` and every schedule of the search:
+the call succeeds and returns the transaction's slot, the block time of that slot, the recorded position and the
+archived transaction (payload and metadata bytes). -/
+theorem getTransaction_fields (es : List Epoch) (ep : Epoch) (b : Block) (t : Tx)
+    (hu : UniqueNums es) (hep : ep ∈ es) (hok : EpochOk ep)
+    (hsigs : ((allTxs ep).map (·.sig)).Nodup) (hb : b ∈ ep.blocks) (ht : t ∈ blockTxs b) (hslot : t.slot = b.slot)
+    (huniq : ∀ ep' ∈ es, (findTx ep' t.sig).isSome = true → ep' = ep)
+    (limit : Int) (s : State Nat JErr) (r : Res Nat JErr)
+    (hr : Reach (cfgOf limit (searchEps es t.sig)) s) (hd : s.main = .done r) :
+    getTransaction es r t.sig = .ok { slot := b.slot, blockTime := b.time, pos := t.pos, tx := t } := by
+  have htm : t ∈ allTxs ep := List.mem_flatMap.mpr ⟨b, hb, ht⟩
+  have hft : findTx ep t.sig = some t := findTx_of_mem ep t hsigs htm
+  have hfind := search_finds es ep t.sig hu hep (by rw [hft]; rfl) huniq limit s r hr hd
+  unfold getTransaction
+  have hne : es.isEmpty = false := by cases es with
+    | nil => cases hep
+    | cons _ _ => rfl
+  simp only [hne, Bool.false_eq_true, if_false, hfind, lookupEpoch_of_mem es ep hu hep, txAnswer, hft]
+  simp [blocktimeIdx, hslot, hok.inEpoch b hb, findBlock_of_mem ep b hok.slots hb]
+
+/-- **every epoch-search concurrency setting and every schedule of the search give the same answer**, for every
+signature that at most one loaded epoch archives (archived or unknown) -/
+theorem search_concurrency_irrelevant (es : List Epoch) (sig : Nat) (hu : UniqueNums es)
+    (hone : ∀ ep ∈ es, ∀ ep' ∈ es, (findTx ep sig).isSome = true → (findTx ep' sig).isSome = true → ep' = ep)
+    (limit limit' : Int) (s s' : State Nat JErr) (r r' : Res Nat JErr)
+    (hr : Reach (cfgOf limit (searchEps es sig)) s) (hd : s.main = .done r)
+    (hr' : Reach (cfgOf limit' (searchEps es sig)) s') (hd' : s'.main = .done r') :
+    getTransaction es r sig = getTransaction es r' sig := by
+  by_cases hex : ∃ ep ∈ es, (findTx ep sig).isSome = true
+  · obtain ⟨ep, hep, hhit⟩ := hex
+    have h1 := search_finds es ep sig hu hep hhit (fun ep' hep' h' => hone ep hep ep' hep' hhit h') limit s r hr hd
+    have h2 := search_finds es ep sig hu hep hhit (fun ep' hep' h' => hone ep hep ep' hep' hhit h') limit' s' r' hr' hd'
+    unfold getTransaction
+    rw [h1, h2]
+  · -- nobody archives the signature: every job answers not-found, whatever the schedule
+    have hall : ∀ lim : Int, ∀ j, j < (searchEps es sig).length →
+        ∃ x, (cfgOf lim (searchEps es sig)).out j = .err x ∧ x.isNF = true := by
+      intro lim j hj
+      rw [C18.cfgOf_out lim _ j hj]
+      obtain ⟨ep, hep, _, hk⟩ := mem_searchEps es sig _ _ (List.getElem_mem hj)
+      have : kindOf ep sig = .hasFalse := by
+        unfold kindOf
+        rw [if_neg (fun h => hex ⟨ep, hep, h⟩)]
+      have hk' : (searchEps es sig)[j].2 = .hasFalse := by rw [← this]; exact hk
+      rw [hk']
+      exact ⟨_, rfl, rfl⟩
+    unfold getTransaction
+    by_cases h1 : (searchEps es sig).length = 1
+    · match hs : searchEps es sig, h1 with
+      | [(n, k)], _ => simp only [C18.find_single_epoch]
+    · rw [C18.find_multi_epoch _ r h1, C18.find_multi_epoch _ r' h1,
+        (C18.find_epoch_classification limit _ s r hr hd).2.2.1 (hall limit),
+        (C18.find_epoch_classification limit' _ s' r' hr' hd').2.2.1 (hall limit')]
+
+/-! ### routing is independent of the other loaded epochs -/
+
+/-- **loading more epochs does not change the answer for a slot of a loaded epoch** (getBlock, getBlockTime), archived
+or skipped -/
+theorem routing_independent_of_other_epochs (S : SortFn) (σ : Sched) (es es' : List Epoch) (ep : Epoch) (slot : Nat)
+    (hu : UniqueNums es) (hu' : UniqueNums es') (hsub : ∀ e ∈ es, e ∈ es') (hep : ep ∈ es) (h : epochOf slot = ep.num) :
+    getBlock S σ es' slot = getBlock S σ es slot ∧ getBlockTime es' slot = getBlockTime es slot := by
+  unfold getBlock getBlockTime
+  rw [route es ep hu hep slot h, route es' ep hu' (hsub ep hep) slot h]
+  exact ⟨rfl, rfl⟩
+
+/-- **… nor for a signature archived in a loaded epoch** (unique among the epochs of the larger set), whatever the two
+searches' concurrency limits and schedules -/
+theorem routing_independent_of_other_epochs_tx (es es' : List Epoch) (ep : Epoch) (sig : Nat)
+    (hu : UniqueNums es) (hu' : UniqueNums es') (hsub : ∀ e ∈ es, e ∈ es') (hep : ep ∈ es)
+    (hhit : (findTx ep sig).isSome = true)
+    (huniq : ∀ ep' ∈ es', (findTx ep' sig).isSome = true → ep' = ep)
+    (limit limit' : Int) (s s' : State Nat JErr) (r r' : Res Nat JErr)
+    (hr : Reach (cfgOf limit (searchEps es sig)) s) (hd : s.main = .done r)
+    (hr' : Reach (cfgOf limit' (searchEps es' sig)) s') (hd' : s'.main = .done r') :
+    getTransaction es' r' sig = getTransaction es r sig := by
+  have h1 := search_finds es ep sig hu hep hhit (fun e he hh => huniq e (hsub e he) hh) limit s r hr hd
+  have h2 := search_finds es' ep sig hu' (hsub ep hep) hhit huniq limit' s' r' hr' hd'
+  have hne : es.isEmpty = false := by cases es with
+    | nil => cases hep
+    | cons _ _ => rfl
+  have hne' : es'.isEmpty = false := by cases es' with
+    | nil => cases hsub ep hep
+    | cons _ _ => rfl
+  unfold getTransaction
+  simp only [hne, hne', h1, h2, lookupEpoch_of_mem es ep hu hep, lookupEpoch_of_mem es' ep hu' (hsub ep hep)]
+
+/-! ### the shared cache: the object fetches behind the handlers -/
+
+/-- **getBlock through the shared caches = getBlock over the archive**, for every sound keying of the offset cache,
+every content of the raw-object cache, every sound content of the offset cache (so: after any earlier requests, to any
+epochs, in any order); and the offset cache stays sound. -/
+theorem getBlockS_eq (key : Key) (raw : Cid → Bool) (S : SortFn) (σ : Sched) (cache : Cache) (es : List Epoch) (slot : Nat)
+    (hk : KeyOk es key) (hc : CacheOk es key cache) (hs : ∀ ep ∈ es, StoreOk ep) :
+    (getBlockS key raw S σ cache es slot).1 = getBlock S σ es slot ∧
+      CacheOk es key (getBlockS key raw S σ cache es slot).2 := by
+  unfold getBlockS getBlock
+  cases hl : lookupEpoch es (epochOf slot) with
+  | none => exact ⟨rfl, hc⟩
+  | some ep =>
+    have hep := (lookupEpoch_some es _ ep hl).1
+    dsimp only
+    cases hf : findBlock ep slot with
+    | none => exact ⟨rfl, hc⟩
+    | some b =>
+      dsimp only
+      have hbm : b ∈ ep.blocks := List.mem_of_find?_eq_some hf
+      obtain ⟨hb0, hbe⟩ := hs ep hep b hbm
+      obtain ⟨a1, a2⟩ := getNode_ok es key raw cache ep b.cid hk hc hep hb0
+      obtain ⟨b1, b2⟩ := getNodes_ok es key raw ep hk hep (b.entries.map (·.cid)) _ a2 (by
+        intro c hc'
+        obtain ⟨e, he, rfl⟩ := List.mem_map.mp hc'
+        exact (hbe e he).1)
+      obtain ⟨c1, c2⟩ := fetchTxs_ok es key raw ep hk hep (blockTxs b) _ b2 (by
+        intro t ht
+        obtain ⟨e, he, hte⟩ := List.mem_flatMap.mp ht
+        exact (hbe e he).2 t hte)
+      obtain ⟨d1, d2⟩ := getNodes_ok es key raw ep hk hep (parentCids ep b) _ c2 (parentCids_ok ep b (hs ep hep))
+      refine ⟨?_, d2⟩
+      simp only [a1, b1, d1, txOutcome_all_true _ c1, Bool.not_true, Bool.false_eq_true, if_false]
+
+/-- **getTransaction through the shared caches = getTransaction over the archive**, under the same conditions -/
+theorem getTransactionS_eq (key : Key) (raw : Cid → Bool) (cache : Cache) (es : List Epoch) (r : Res Nat JErr) (sig : Nat)
+    (hk : KeyOk es key) (hc : CacheOk es key cache) (hs : ∀ ep ∈ es, StoreOk ep) :
+    (getTransactionS key raw cache es r sig).1 = getTransaction es r sig ∧
+      CacheOk es key (getTransactionS key raw cache es r sig).2 := by
+  unfold getTransactionS getTransaction
+  cases hne : es.isEmpty with
+  | true => exact ⟨rfl, hc⟩
+  | false =>
+    simp only [Bool.false_eq_true, if_false]
+    cases hfr : findResult (searchEps es sig) r with
+    | notFound => exact ⟨rfl, hc⟩
+    | internal x => exact ⟨rfl, hc⟩
+    | found e =>
+      simp only
+      cases hl : lookupEpoch es e with
+      | none => exact ⟨rfl, hc⟩
+      | some ep =>
+        have hep := (lookupEpoch_some es _ ep hl).1
+        simp only
+        cases hft : findTx ep sig with
+        | none => simp only [txAnswer, hft]; exact ⟨trivial, hc⟩
+        | some t =>
+          have htm := (findTx_some ep sig t hft).1
+          obtain ⟨b, hb, htb⟩ := List.mem_flatMap.mp htm
+          obtain ⟨e', he', hte⟩ := List.mem_flatMap.mp htb
+          obtain ⟨h1, h2⟩ := (hs ep hep b hb).2 e' he' |>.2 t hte
+          obtain ⟨g1, g2⟩ := getNodes_ok es key raw ep hk hep (t.cid :: t.frames) cache hc (by
+            intro c hc'
+            rcases List.mem_cons.mp hc' with rfl | hc''
+            · exact h1
+            · exact h2 c hc'')
+          simp only [g1, if_true]
+          exact ⟨trivial, g2⟩
+
+/-- **with the repaired cache key (epoch, CID) no hypothesis about CIDs shared between epochs is needed**: whatever
+other epochs are loaded and whatever was requested before (start from the empty cache and apply this theorem request
+after request), getBlock answers as the archive layer says -/
+theorem getBlockS_pairKey (raw : Cid → Bool) (S : SortFn) (σ : Sched) (cache : Cache) (es : List Epoch) (slot : Nat)
+    (hu : UniqueNums es) (hc : CacheOk es pairKey cache) (hs : ∀ ep ∈ es, StoreOk ep) :
+    (getBlockS pairKey raw S σ cache es slot).1 = getBlock S σ es slot ∧
+      CacheOk es pairKey (getBlockS pairKey raw S σ cache es slot).2 :=
+  getBlockS_eq pairKey raw S σ cache es slot (keyOk_pair es hu) hc hs
+
+theorem getTransactionS_pairKey (raw : Cid → Bool) (cache : Cache) (es : List Epoch) (r : Res Nat JErr) (sig : Nat)
+    (hu : UniqueNums es) (hc : CacheOk es pairKey cache) (hs : ∀ ep ∈ es, StoreOk ep) :
+    (getTransactionS pairKey raw cache es r sig).1 = getTransaction es r sig ∧
+      CacheOk es pairKey (getTransactionS pairKey raw cache es r sig).2 :=
+  getTransactionS_eq pairKey raw cache es r sig (keyOk_pair es hu) hc hs
+
+/-- with the CID-only key of the pinned tree the same holds ONLY under the explicit hypothesis that no CID is stored
+at different offsets in two loaded epochs -/
+theorem getTransactionS_cidKey_needs_no_shared_cid (raw : Cid → Bool) (cache : Cache) (es : List Epoch)
+    (r : Res Nat JErr) (sig : Nat) (hn : NoSharedCid es) (hc : CacheOk es cidKey cache) (hs : ∀ ep ∈ es, StoreOk ep) :
+    (getTransactionS cidKey raw cache es r sig).1 = getTransaction es r sig ∧
+      CacheOk es cidKey (getTransactionS cidKey raw cache es r sig).2 :=
+  getTransactionS_eq cidKey raw cache es r sig (keyOk_cid es hn) hc hs
+
+/-! #### … and that hypothesis cannot be dropped: the defect of the pinned tree as a theorem -/
+
+/-- two one-block epochs whose transactions share one continuation frame (CID 7), stored at offset 10 in epoch 1 and
+at offset 20 in epoch 2 -/
+def txA : Tx := { sig := 101, slot := 432000, pos := some 0, payload := [1], mdata := [9, 9], cid := 11, frames := [7] }
+def txB : Tx := { sig := 202, slot := 864000, pos := some 0, payload := [2], mdata := [9, 9], cid := 21, frames := [7] }
+def epA : Epoch :=
+  { num := 1, blocks := [{ slot := 432000, parent := 431999, time := 5, height := some 1, cid := 13,
+                           entries := [{ hash := [1], txs := [txA], cid := 12 }] }],
+    objs := [(7, 10), (11, 30), (12, 40), (13, 50)] }
+def epB : Epoch :=
+  { num := 2, blocks := [{ slot := 864000, parent := 863999, time := 6, height := some 2, cid := 23,
+                           entries := [{ hash := [2], txs := [txB], cid := 22 }] }],
+    objs := [(21, 10), (7, 20), (22, 40), (23, 50)] }
+
+/-- **the CID-only cache key breaks the property**: after the transaction of epoch 1 has been served, the archived
+transaction of epoch 2 gets "Internal error" (epoch 2's CAR is read at epoch 1's offset); in the other order the
+transaction of epoch 1 fails.  With the (epoch, CID) key both orders succeed. -/
+theorem cidKey_breaks_shared_frame :
+    let noRaw : Cid → Bool := fun _ => false
+    let afterA := (getTransactionS cidKey noRaw [] [epA, epB] (.ok 1) 101)
+    let afterB := (getTransactionS cidKey noRaw [] [epA, epB] (.ok 2) 202)
+    afterA.1 = txAnswer epA 101 ∧
+    (getTransactionS cidKey noRaw afterA.2 [epA, epB] (.ok 2) 202).1 = .internal ∧
+    afterB.1 = txAnswer epB 202 ∧
+    (getTransactionS cidKey noRaw afterB.2 [epA, epB] (.ok 1) 101).1 = .internal ∧
+    (getTransactionS pairKey noRaw (getTransactionS pairKey noRaw [] [epA, epB] (.ok 1) 101).2 [epA, epB] (.ok 2) 202).1
+      = txAnswer epB 202 := by
+  decide
+
+/-! ### what is not proved -/
+
+/-- `partial`: for the `json` encoding (and for the JSON rendering of the metadata in every JSON-RPC encoding) the
+model only says WHICH archived transaction is rendered (`r.tx = t`, so the rendering is a function of the archived
+payload and metadata bytes); that solana-go's `MarshalJSON`, the protobuf parser and jsoniter render those bytes
+faithfully is outside the model (third party; compared field by field in the correspondence run). -/
+theorem json_encoding_partial (r : TxResp) (t : Tx) (render : Tx → String) (h : r.tx = t) : render r.tx = render t := by
+  rw [h]
+
+/-! ### non-vacuity: concrete runs of the very definitions above -/
+
+def exTx (sig pos : Nat) : Tx := { sig := sig, slot := 432001, pos := some pos, payload := [UInt8.ofNat sig], mdata := [7], cid := 100 + sig, frames := [] }
+def exBlock0 : Block :=
+  { slot := 432000, parent := 431999, time := 50, height := some 9, cid := 1,
+    entries := [{ hash := List.replicate 32 1, txs := [], cid := 2 }] }
+def exBlock1 : Block :=
+  { slot := 432001, parent := 432000, time := 51, height := some 10, cid := 3,
+    entries := [{ hash := [3], txs := [exTx 1 0, exTx 2 1], cid := 4 }, { hash := List.replicate 32 5, txs := [exTx 3 2], cid := 5 }] }
+def exEp : Epoch :=
+  { num := 1, blocks := [exBlock0, exBlock1],
+    objs := [(2, 10), (1, 20), (101, 30), (102, 40), (4, 50), (103, 60), (5, 70), (3, 80)] }
+def exEp2 : Epoch := { num := 2, blocks := [{ slot := 864000, parent := 863999, time := 70, height := none, cid := 6, entries := [] }], objs := [(6, 10)] }
+
+-- the hypotheses of the theorems are satisfiable
+example : EpochOk exEp := ⟨by decide, by decide, by decide⟩
+example : StoreOk exEp := by unfold StoreOk; decide
+example : UniqueNums [exEp, exEp2] := by unfold UniqueNums; decide
+-- getBlock: all fields, transactions in position order under the LIFO schedule, parent hash from the same epoch
+example : getBlock SortFn.ins Sched.lifo [exEp2, exEp] 432001 =
+    .ok { slot := 432001, parentSlot := 432000, blockTime := 51, blockHeight := some 10,
+          blockhash := List.replicate 32 5, previousBlockhash := some (List.replicate 32 1),
+          txs := [exTx 1 0, exTx 2 1, exTx 3 2] } := by decide
+-- first block of the epoch: the parent is in another epoch, previousBlockhash stays absent
+example : (match getBlock SortFn.ins Sched.fifo [exEp] 432000 with | .ok r => r.previousBlockhash | _ => some []) = none := by decide
+-- a block without entries: zero blockhash; no recorded height
+example : (match getBlock SortFn.ins Sched.fifo [exEp, exEp2] 864000 with | .ok r => (r.blockhash, r.blockHeight) | _ => ([], some 1))
+    = (List.replicate 32 0, none) := by decide
+-- skipped slot, epoch not loaded
+example : getBlock SortFn.ins Sched.fifo [exEp] 432002 = .null := by decide
+example : getBlock SortFn.ins Sched.fifo [exEp] 864000 = .epochUnavailable 2 := by decide
+-- an incomplete set of completions leaves a nil slot (what the fetch-error path of the handler runs into)
+example : allSome (merge exBlock1 (fill emptySlots [⟨0, 1, exTx 2 1⟩, ⟨1, 0, exTx 3 2⟩])) = none := by decide
+example : (completions exBlock1).length = 3 := by decide
+-- getBlockTime
+example : getBlockTime [exEp, exEp2] 432001 = .ok 51 := by decide
+-- getTransaction: the search over two epochs under limit 1 (driver's scheduler) finds epoch 1
+example : getTransaction [exEp, exEp2] (searchRun 1 (searchEps [exEp, exEp2] 3) []) 3 =
+    .ok { slot := 432001, blockTime := 51, pos := some 2, tx := exTx 3 2 } := by decide
+example : searchEps [exEp, exEp2] 3 = [(2, .hasFalse), (1, .hit)] := by decide
+-- the hypotheses of `getTransaction_fields` / `search_concurrency_irrelevant` are satisfiable: a complete run of the
+-- search (limit 2: both jobs at once; the error of epoch 2 arrives first) that ends with main returning epoch 1
+example : getTransaction [exEp, exEp2] (.ok 1) 3 = .ok { slot := 432001, blockTime := 51, pos := some 2, tx := exTx 3 2 } :=
+  getTransaction_fields [exEp, exEp2] exEp exBlock1 (exTx 3 2) (by unfold UniqueNums; decide) (by decide)
+    ⟨by decide, by decide, by decide⟩ (by decide) (by decide) (by decide) rfl (by decide) 2
+    { next := 2, running := [], sentq := [0, 1], relq := [], buf := [], log := [0, 1], main := .done (.ok 1), closed := false }
+    (.ok 1) ⟨[.start, .start, .send 0, .send 1, .fork, .recv, .recv], rfl⟩ rfl
+-- unknown signature: null; one epoch loaded: the search is skipped
+example : getTransaction [exEp, exEp2] (searchRun 2 (searchEps [exEp, exEp2] 77) []) 77 = .null := by decide
+example : getTransaction [exEp] (.err []) 2 = .ok { slot := 432001, blockTime := 51, pos := some 1, tx := exTx 2 1 } := by decide
+-- through the store, from the empty cache: same answer, offsets of epoch 1 cached under (1, cid)
+example : (getBlockS pairKey (fun _ => false) SortFn.ins Sched.lifo [] [exEp, exEp2] 432001).1
+    = getBlock SortFn.ins Sched.lifo [exEp, exEp2] 432001 := by decide
+example : ((getBlockS pairKey (fun _ => false) SortFn.ins Sched.lifo [] [exEp, exEp2] 432001).2.map (·.1.1)).all (· == 1) = true := by decide
+-- slot 0 with genesis
+def exEp0 : Epoch :=
+  { num := 0, genesisTime := some 1584368940,
+    blocks := [{ slot := 0, parent := 0, time := 0, height := none, cid := 1, entries := [{ hash := List.replicate 32 4, txs := [], cid := 2 }] },
+               { slot := 1, parent := 0, time := 11, height := some 1, cid := 3, entries := [{ hash := List.replicate 32 6, txs := [], cid := 4 }] }] }
+example : getBlock SortFn.ins Sched.fifo [exEp0] 0 =
+    .ok { slot := 0, parentSlot := 0, blockTime := 1584368940, blockHeight := some 0, blockhash := List.replicate 32 4,
+          previousBlockhash := some (List.replicate 32 4), txs := [] } := by decide
+example : (match getBlock SortFn.ins Sched.fifo [exEp0] 1 with | .ok r => r.previousBlockhash | _ => none) = some (List.replicate 32 4) := by decide
+-- slot 1 skipped: block 2 has parent 0 in the same epoch; the pinned condition says no lookup, the repaired one yes
+example : wantsParentPinned exEp0 { slot := 2, parent := 0, time := 1, height := none, cid := 9, entries := [] } = false := by decide
+example : wantsParent exEp0 { slot := 2, parent := 0, time := 1, height := none, cid := 9, entries := [] } = true := by decide
+
 end C02
